@@ -185,6 +185,10 @@ def check_buffer_loop(rep, prog):
     buf = I.new(TR + "TraceBuffer")
     r = I.method(buf, "read", [st])
     loops = [L for L in I.loops.values() if L.func == TR + "TraceBuffer.read"]
+    if not loops:
+        # the entry loop may live in a helper / generator method of the buffer: the loop that reads entries
+        loops = [L for L in I.loops.values() if any(e.kind == "opaquecall" and e.data[0] == TR + "TraceEntry.read" and e.loops and e.loops[-1] is L
+                                                    for e in I.events)]
     ok = len(loops) == 1 and loops[0].kind == "while"
     if ok:
         L = loops[0]
